@@ -1,10 +1,87 @@
 import PyxModel.Sexp
+import PyxModel.Check
+import Driver.C02
 
-/-! driver commands of property C11 (stub: no command yet) -/
+/-!
+  driver command of property C11 (explicit state):
+  (check <schema> (kinds k…per instance index) (pools (idx…)…per class)
+         (links ((src entries) (tgt entries))…per association)   -- entry = (x partner…)
+         (attrs (inst ("name" v|none)…)…)
+         (classes ((attrs ("name" T|F)…) (idents ("I1" ("a" "b"))…) (identifying "a" …))…)
+         (queries (assoc none|"R1") (uniq none|k) (subtype k "R4") (consistent) (main ("R1"…) (k…)) …))
+-/
 namespace Pyx.Driver.C11
-open Pyx Pyx.Sexp
+open Pyx Pyx.Sexp Pyx.Meta Pyx.Check Pyx.Driver.C02
+
+def entriesToMap (x : Sexp) : Inst → List Inst :=
+  match x with
+  | list es =>
+    let tbl := es.filterMap fun e =>
+      match e with
+      | list (int k :: ps) => some (k.toNat, ps.filterMap asNat?)
+      | _ => none
+    fun z => (tbl.lookup z).getD []
+  | _ => fun _ => []
+
+def decodeLinks (x : Sexp) : Nat → ALinks :=
+  match x with
+  | list (sym "links" :: ls) =>
+    let arr := ls.map fun l =>
+      match l with
+      | list [s, t] => ({ src := entriesToMap s, tgt := entriesToMap t } : ALinks)
+      | _ => emptyLinks
+    fun i => arr.getD i emptyLinks
+  | _ => fun _ => emptyLinks
+
+def decodeVal (x : Sexp) : Inst → String → Option Int :=
+  match x with
+  | list (sym "attrs" :: es) =>
+    let tbl := es.filterMap fun e =>
+      match e with
+      | list (int i :: ps) => some (i.toNat, ps.filterMap fun p =>
+          match p with
+          | list [a, int v] => (asStr? a).map fun a => (a, some v)
+          | list [a, sym "none"] => (asStr? a).map fun a => (a, none)
+          | _ => none)
+      | _ => none
+    fun i name => ((tbl.lookup i).bind (fun ps => ps.lookup name)).getD none
+  | _ => fun _ _ => none
+
+def decodeClass : Sexp → ClassInfo
+  | list [list (sym "attrs" :: as), list (sym "idents" :: ids), list (sym "identifying" :: idn)] =>
+    { attrs := as.filterMap fun a => match a with
+        | list [n, b] => (asStr? n).map fun n => (n, (asBool? b).getD false)
+        | _ => none,
+      idents := ids.filterMap fun d => match d with
+        | list [n, list xs] => (asStr? n).map fun n => (n, xs.filterMap asStr?)
+        | _ => none,
+      identifying := idn.filterMap asStr? }
+  | _ => { attrs := [], idents := [], identifying := [] }
+
+def runQ (w : World) : Sexp → Sexp
+  | list [sym "assoc", sym "none"] => ofNat (checkAssoc w none)
+  | list [sym "assoc", r] => ofNat (checkAssoc w (asStr? r))
+  | list [sym "uniq", sym "none"] => ofNat (checkUniq w none)
+  | list [sym "uniq", int k] => ofNat (checkUniq w (some k.toNat))
+  | list [sym "subtype", int k, r] => ofNat (checkSubtype w k.toNat ((asStr? r).getD ""))
+  | list [sym "consistent"] => ofBool (isConsistent w)
+  | list [sym "main", list rs, list ks] =>
+    list [ofNat (mainErrors w (rs.filterMap asStr?) (ks.filterMap asNat?)),
+          ofNat (exitStatus w (rs.filterMap asStr?) (ks.filterMap asNat?))]
+  | _ => sym "bad-query"
 
 def handle : List Sexp → Option Sexp
+  | [sym "check", sch, list (sym "kinds" :: ks), list (sym "pools" :: ps), links, attrs,
+     list (sym "classes" :: cs), list (sym "queries" :: qs)] =>
+    match decodeSchema sch with
+    | some sc =>
+      let kinds := ks.filterMap asNat?
+      let pools := ps.map fun p => match p with | list xs => xs.filterMap asNat? | _ => []
+      let w : World := { sch := sc.assocs, classes := cs.map decodeClass, pool := fun k => pools.getD k [],
+                         links := decodeLinks links, val := decodeVal attrs,
+                         kindOf := fun x => kinds.getD x 0, count := kinds.length }
+      some (list (qs.map (runQ w)))
+    | none => some (sym "bad-schema")
   | _ => none
 
 end Pyx.Driver.C11
